@@ -75,7 +75,8 @@ class Dut:
             nrf.open_tx_pipe(link.rx_address(1, 5))   # pipe 0 is also a user RX pipe here: re-arm it for ACKs
             self.air.fates = {"tx_ok": [], "tx_fail": list("PPP"), "tx_retry_ok": list("PD")}[op[0]]
             try:
-                nrf.send(bytes([0xEE, self.k]) + bytes(5 if not self.dyn else 0), send_only=True)
+                with sim.guard(lp.s, 2_000_000_000):
+                    nrf.send(bytes([0xEE, self.k]) + bytes(5 if not self.dyn else 0), send_only=True)
             except Exception:  # noqa
                 pass
             lp.settle()
